@@ -1,4 +1,4 @@
-SPECIFICATION SpecLedger
+SPECIFICATION SpecRelist
 CONSTANTS
   MaxLinks = 0
   LinkLens <- None
@@ -7,10 +7,12 @@ CONSTANTS
   SegLens <- None
   Rises <- None
   TrainLens <- None
-  MaxSteps = 3
-  Pows <- P3
-  Fault = TRUE
-  MaxUnits = 0
+  MaxSteps = 0
+  Pows <- None
+  Fault = FALSE
+  MaxUnits = 2
   Cached = FALSE
-INVARIANT FaultDetected
+INVARIANT RelistResKm
+INVARIANT RelistNonResKm
+INVARIANT EmitRelist
 CHECK_DEADLOCK FALSE
